@@ -58,7 +58,14 @@ var families = []string{"io", "tee", "sampler", "hooked", "increase", "lazy", "o
 func build(family string, warm int) *env {
 	e := &env{family: family, clock: hx.NewFixedClock()}
 	e.AL = zap.NewAtomicLevelAt(zap.DebugLevel)
-	enc := func() zapcore.Encoder { return zapcore.NewJSONEncoder(zap.NewProductionEncoderConfig()) }
+	enc := func() zapcore.Encoder {
+		cfg := zap.NewProductionEncoderConfig()
+		if family == "tee" || family == "lazy" || family == "buffered" || family == "sampler" {
+			// the other built-in sub-encoders (layout-based time, string duration, capital level, full caller)
+			cfg.EncodeTime, cfg.EncodeDuration, cfg.EncodeLevel, cfg.EncodeCaller = zapcore.ISO8601TimeEncoder, zapcore.StringDurationEncoder, zapcore.CapitalLevelEncoder, zapcore.FullCallerEncoder
+		}
+		return zapcore.NewJSONEncoder(cfg)
+	}
 	newSink := func() *rsink { s := &rsink{}; e.sinks = append(e.sinks, s); return s }
 	io := func() zapcore.Core { return zapcore.NewCore(enc(), zapcore.Lock(newSink()), e.AL) }
 	var core zapcore.Core
